@@ -124,7 +124,11 @@ def check(prog, rep):
         """``e`` denotes the value of ``param`` itself: the name, Constant(<wrap>), float(<wrap>), or a module helper
         applied to it whose every return is such a wrap of its own parameter."""
         if isinstance(e, ast.Name):
-            return e.id == param
+            if e.id == param:
+                return True
+            # a local that holds the wrapped operand on every path (rhs_expr = Constant(rhs) / rhs / Constant(float(rhs)))
+            vals = [v for v in local_assignments(fi.node).get(e.id, []) if isinstance(v, ast.AST)]
+            return bool(vals) and depth < 3 and all(wraps(v, param, fi, depth + 1) for v in vals)
         if isinstance(e, ast.Call) and len(e.args) == 1 and not e.keywords:
             f = dotted(e.func)
             if f in ("Constant", "float"):
@@ -136,7 +140,13 @@ def check(prog, rep):
                 return bool(rets) and all(r is not None and wraps(r, hp, h, depth + 1) for r in rets)
         return False
 
-    subs = [n for n in walk_local(mk.node, include_self=False) if isinstance(n, ast.BinOp) and isinstance(n.op, (ast.Sub, ast.Add)) and {lhs, rhs} <= {x.id for x in ast.walk(n) if isinstance(x, ast.Name)}]
+    def mentions(n, p_):
+        for x in ast.walk(n):
+            if isinstance(x, ast.Name) and (x.id == p_ or any(isinstance(v, ast.AST) and p_ in {y.id for y in ast.walk(v) if isinstance(y, ast.Name)} for v in local_assignments(mk.node).get(x.id, []))):
+                return True
+        return False
+
+    subs = [n for n in walk_local(mk.node, include_self=False) if isinstance(n, ast.BinOp) and isinstance(n.op, (ast.Sub, ast.Add)) and mentions(n, lhs) and mentions(n, rhs)]
     nsub = 0
     for b in subs:
         nsub += 1
@@ -155,12 +165,30 @@ def check(prog, rep):
     post = C.methods.get("__post_init__")
     ok = False
     if post is not None:
-        for n in walk_local(post.node, include_self=False):
-            if isinstance(n, ast.If):
-                t = op_test(n.test)
-                if t and t[0] == "self.sense" and t[2] and set(t[1]) == {"<=", ">=", "=="} and any(isinstance(x, ast.Raise) for x in n.body):
-                    ok = True
-    rep.ob("R10.1", "Constraint.__post_init__", ok, "rejects every sense other than <=, >=, ==" if ok else "does not reject senses outside {<=, >=, ==}: a typo such as '=<' would be treated as an equality by the solver", loc=post.loc if post else C.loc, detail="sense-validated")
+        # walked per sense value: the three relations pass, anything else raises (the form of the test is free)
+        from ..scenario import Explorer as _Ex
+
+        def outcome(sense_val):
+            def atom_truth(t, state):
+                ot = op_test(t)
+                if ot and ot[0] == "self.sense":
+                    hit = sense_val in ot[1]
+                    return (not hit) if ot[2] else hit
+                return None
+            try:
+                paths = _Ex(atom_truth).explore(post.node.body, {})
+            except Exception:
+                return None
+            return {("raise" if term == "raise" else "pass") for _s, term in paths}
+
+        res = {v: outcome(v) for v in ("<=", ">=", "==", "=<", "<", "!=")}
+        if any(r is None for r in res.values()):
+            rep.undecided("Constraint.__post_init__: sense validation not interpretable")
+            ok = None
+        else:
+            ok = all(res[v] == {"pass"} for v in ("<=", ">=", "==")) and all(res[v] == {"raise"} for v in ("=<", "<", "!="))
+    if ok is not None:
+      rep.ob("R10.1", "Constraint.__post_init__", ok, "rejects every sense other than <=, >=, ==" if ok else "does not reject senses outside {<=, >=, ==}: a typo such as '=<' would be treated as an equality by the solver", loc=post.loc if post else C.loc, detail="sense-validated")
 
     # ------------------------------------------------------------------ R10.2
     viol = C.methods.get("violation")
